@@ -5,6 +5,7 @@ CONSTANTS
   MaxCommits = 2
   Crashes = FALSE
   WriteFailures = TRUE
+  Uncache = "walk"
   Dedup = TRUE
   Order = "post"
 INVARIANTS TypeOK Closed DurableKept NothingLost
